@@ -32,6 +32,10 @@ pub fn now_ms() -> u64 {
     START.get_or_init(Instant::now).elapsed().as_millis() as u64 + 1
 }
 
+pub fn current_worker() -> usize {
+    WORKER.with(|w| w.get())
+}
+
 pub fn register_worker(idx: usize) {
     WORKER.with(|w| w.set(idx));
 }
